@@ -427,6 +427,27 @@ func (v *Value) Canon() string {
 	return string(b)
 }
 
+// CanonExact is Canon with the container representations kept ([]any vs []T, map[any]any vs map[string]any):
+// below an `any` schema the denoted value is the normalised tree, so the Go types of containers are part of it.
+func (v *Value) CanonExact() string {
+	switch v.K {
+	case "list":
+		parts := make([]string, len(v.List))
+		for i, x := range v.List {
+			parts[i] = x.CanonExact()
+		}
+		return v.Rep + "[" + strings.Join(parts, ",") + "]"
+	case "map":
+		parts := make([]string, len(v.Pairs))
+		for i, p := range v.Pairs {
+			parts[i] = p[0].CanonExact() + "=>" + p[1].CanonExact()
+		}
+		sort.Strings(parts)
+		return v.Rep + "{" + strings.Join(parts, ",") + "}"
+	}
+	return v.Canon()
+}
+
 // Class names the value class / representation of a value (signature field arg_class).
 func (v *Value) Class() string {
 	switch v.K {
